@@ -10,6 +10,7 @@ import ast
 from ..callgraph import CallGraph
 from ..escape import EscapeAnalysis
 from ..lattice import bv_family, class_test, reaching_classes
+from ..model import returns_text
 from ..model import call_name, dotted, own_nodes, unparse
 from ..pathcond import path_info
 from ..paths import enumerate_paths, path_calls
@@ -650,6 +651,32 @@ def run(pm, ctx):
     ctx.import_rules(pm, 'C08', {'C08-R6'}, 'C06-R9',
                      'Union.__init__ / Attribute.__set__ validate every value through the member '
                      'validator (shared with C08-R6)')
+
+    # ---------------- R10: what the decoder treats as "may be omitted entirely"
+    ctx.rule('C06-R10', 'a struct value may be defaulted (omitted / null accepted) only when it has '
+                        'no required field, inherited ones included')
+    from ..dataflow import defs as _defs
+    g = pm.func('stone.backends.python_types.PythonTypesBackend.'
+                '_generate_struct_class_has_required_fields')
+    d = _defs(g.node)
+    attrs = d.origin_attrs('has_required_fields', depth=4)
+    emits = [c for c in own_nodes(g.node) if isinstance(c, ast.Call) and call_name(c) == 'emit' and
+             c.args and '_has_required_fields' in unparse(c.args[0]) and
+             'has_required_fields' in [x.id for x in ast.walk(c.args[0]) if isinstance(x, ast.Name)]]
+    ctx.check('C06-R10', len(emits) == 1 and 'all_required_fields' in attrs and
+              not ({'fields', 'required_fields'} & attrs),
+              '_has_required_fields is computed from all_required_fields (inherited included)',
+              g.loc, msg='_has_required_fields is computed from %s: a struct whose only required '
+                         'fields are inherited would be accepted when omitted or null'
+                         % sorted(a for a in attrs if 'field' in a),
+              key='C06-R10|%s' % g.qualname)
+    hd = pm.func(VAL + '.Struct.has_default')
+    gd = pm.func(VAL + '.Struct.get_default')
+    ctx.check('C06-R10', returns_text(hd.node) == 'not self.definition._has_required_fields',
+              'bv.Struct.has_default is the negation of _has_required_fields', hd.loc,
+              msg='bv.Struct.has_default changed: %s' % returns_text(hd.node),
+              key='C06-R10|%s' % hd.qualname)
+
 
 def _construct(site):
     n = site.node
